@@ -398,6 +398,9 @@ class ScoredCollector(Collector):
                     # threshold, are not on the scale of the matcher's
                     # qualities: nothing may be pruned against it)
                     threshold = 0 if self.final_fn else (minscore or 0)
+                    # (... nor in a matcher that has no qualities to offer)
+                    if threshold and not matcher.supports_block_quality():
+                        threshold = 0
                     self.matcher = matcher = matcher.replace(threshold)
                     self.replaced_times += 1
                     if threshold:
